@@ -272,7 +272,28 @@ ADDENDA5 = {
     'C20': 'R20.1 end() carries no constant index once the iterator can step backwards.',
 }
 
+ADDENDA6 = {
+    'C02': 'R02.4 decides the token check in either form: language inclusion for a regex literal, the finite token abstraction A10 (sa/tokeneval.py) for a check written out by hand. R14.3 / R14.5 re-evaluated as part of R02.8.',
+    'C03': 'R02.4 (either form) re-evaluated as part of R03.7.',
+    'C04': 'R04.12 stack use on the parse path does not grow with the length of an argument (every std::regex run reachable from parse() is over developer-supplied text; no library function on the path is on a call cycle). R04.4 for a hand-written token check (A10): in-bounds reads, refusals are parsing_error, refused tokens are exactly the malformed dash tokens. R04.13 catch handlers neither swallow nor change the class of parsing_error. std throwers include reserve / resize. R14.5, R13.9, R12.3 (range appends) re-evaluated.',
+    'C06': 'R06.11 noexcept members perform no element operation; R06.12 no catch handler lets an exception vanish.',
+    'C07': 'R06.6 (a refused operation leaves the sequence unchanged) re-evaluated as part of R07.5; R07.6 accepts delegation to the sibling emplace.',
+    'C08': 'R08.7 no catch handler in the formatter / exception machinery lets the arity error vanish.',
+    'C10': 'Witness cells w13-w48: the compile-time gate is the same for every sink the library ships.',
+    'C11': 'R04.13 (handlers) and R14.2 (what check() stores is emptied by prepare()) re-evaluated; the letter multiplicity may be taken from the token text (std::count), R01.10.',
+    'C12': 'R12.12 every std thrower reachable from parse() (incl. reserve / resize) is discharged; R12.3 covers whole-range appends to the positional list.',
+    'C13': 'R13.3 every normal return of short_name() has seen a one-character argument.',
+    'C14': 'R14.5 no data member of parser is written on the parse path.',
+    'C15': 'R15.11 no member of the option classes is written on the usage path; R15.12 no function of parser / group overwrites the name / description of an existing option.',
+    'C16': 'R16.3 accepts std::visit for the variant hash only behind !valueless_by_exception().',
+    'C17': 'R17.3 the flag that holds the infix back is only ever cleared inside the loop.',
+    'C19': 'R19.8 no catch handler in the dl / env wrappers lets a failure vanish; R19.2 resolves named deleter functions, which library code never calls directly.',
+    'C20': 'R20.1 no re-callable member hands a data member to std::move; the index is advanced after the wrapped iterator.',
+}
+
 TECH = {
+    "C02": "verbatim value-flow (carrier) analysis + must-facts on the value/next-token selection + token-syntax language inclusion (regex-literal automata, or finite-domain abstract interpretation of a hand-written character check)",
+    "C04": "context-sensitive must-facts dataflow over the call graph below parse() + truth-table entailment of guard preconditions + call-graph effect rules (regex subjects, recursion, catch-handler outcomes) + finite-domain abstract interpretation of the token syntax check",
     "C08": "taint-style subject analysis of searches + regex-literal language equality + must-facts on the arity guards + abstract interpretation of the text-assembling loop over symbolic positions",
     "C09": "lock-scope must-dataflow over the CFG + storage/linkage rules for the mutex + acquire-loop typestate check for hand-written lockables + who-may-touch call-graph rule",
     "C20": "type-level matrix (static_assert) + role-based structural rules on the adaptor patterns (roles derived from constructors) + storage scan + shared iterator-bound rule",
@@ -289,6 +310,8 @@ def main():
     for k, v in ADDENDA4.items():
         CLAIMS[k]["text"] = CLAIMS[k]["text"].rstrip() + " " + v
     for k, v in ADDENDA5.items():
+        CLAIMS[k]["text"] = CLAIMS[k]["text"].rstrip() + " " + v
+    for k, v in ADDENDA6.items():
         CLAIMS[k]["text"] = CLAIMS[k]["text"].rstrip() + " " + v
     for k, v in TECH.items():
         CLAIMS[k]["technique"] = v
